@@ -259,6 +259,11 @@ func evalAtom(n *node, log []resp, now time.Time) tv {
 		// rolling histogram (6 x 10s, rotated lazily, oldest bucket first): what it holds is a
 		// suffix (in time) of the responses since the last trip that contains at least everything
 		// younger than 50s. Evaluate over every such suffix.
+		for _, r := range log {
+			if r.latency > time.Hour {
+				return U // whether a latency beyond the histogram's range is kept (clamped) or dropped is not part of the property
+			}
+		}
 		sawT, sawF := false, false
 		var cs []vc // distinct latency values (ms) with counts, kept sorted
 		cnt := 0
@@ -539,7 +544,9 @@ func alphabet(checkPeriod time.Duration) ([]string, []opDesc) {
 	for _, r := range []struct {
 		c int
 		l time.Duration
-	}{{200, 7 * time.Millisecond}, {500, 7 * time.Millisecond}, {502, 7 * time.Millisecond}, {404, 7 * time.Millisecond}, {200, time.Second}, {504, time.Second}} {
+	}{{200, 7 * time.Millisecond}, {500, 7 * time.Millisecond}, {502, 7 * time.Millisecond}, {404, 7 * time.Millisecond}, {200, time.Second}, {504, time.Second},
+		// an exchange that lasted two hours (streaming / upgraded connection): beyond the latency histogram's range
+		{200, 2 * time.Hour}} {
 		names = append(names, fmt.Sprintf("Req(%d,%v)", r.c, r.l))
 		descs = append(descs, opDesc{0, r.c, r.l, 0})
 	}
